@@ -268,7 +268,10 @@ PROPS["C04"] = dict(
                "to every implementation observation; proved as well: the data clause for coordinates through the 1-sew and the "
                "1-unsew (C04_one_sew_vertex_data / C04_one_unsew_vertex_data: the vertex identified by the orbit minimum of the "
                "linked map carries the lawful merge, the former ids are emptied, every other slot is untouched; mirror image "
-               "with the split law); attribute kinds and the 2-sews: per observation (partial, see DESIGN.md)",
+               "with the split law), and through the 2-sew and the 2-unsew in their three shapes (one end, the other end, both ends "
+               "= two lawful merges / splits in sequence: C04_two_sew_vertex_data_{left,right,both}, "
+               "C04_two_unsew_vertex_data_{left,right,both}); attribute kinds other than coordinates: per observation "
+               "(partial, see DESIGN.md)",
     technique="Coq proof (topology clause) + extracted Coq specification of the data clauses as oracle + correspondence",
     families=[
         Family("grid2", "core2", r_grid2, 1, [(6, "sew2_spec", SEW_CLASSES)]),
